@@ -38,6 +38,10 @@ CHECKS = {
    technique='deterministic simulation of batch histories; twin-run oracle: the items reported successful are re-executed alone by a fresh engine on a copy of the pre-state and store + results must match',
    text='Seeded stores and batches of 1-4 items mixing operations that succeed and that fail at different depths, with/without batch item IDs, Stop/Continue/Undo, batch-order flag, ID-placeholder chains. Checked: one result per processed item in order echoing operation and ID; Stop/Continue semantics; a request-level rejection must have had no effect; the final store and the per-item results must equal those of a twin run that executes only the reported-successful items (so failed items leave no trace, even through a later commit of the shared unit of work, do not disturb later items, and nothing takes effect unreported); id-less items address the latest object created in the batch.',
    note='Values of keys generated by the server inside the batch are masked before stores are compared. Disk-error injection inside batches is part of C09, not of this check.'),
+ 'C14': dict(level='exploration', ref='5/C14',
+   technique='deterministic simulation of store-building histories under a scripted clock (ties, backward jumps) followed by Locate requests from every requester; reference Locate model evaluated on the stored rows',
+   text='Stores of 0-12 objects of all types, 3 owners, several policies, states, names, groups, application information and sensitive flags are created under a scripted clock that produces same-second ties and backward jumps; every requester (optionally with group lists) then issues Locate with conjunctions of 0-3 filters incl. filters not applicable to some stored types, one or two Initial Date filters, offset/maximum in 0..n+1, under all six versions. The answer must be exactly the permitted matching set, newest first (ties in any but a repeatable order), and pages must be the corresponding slices.',
+   note='Reference semantics: an object matches a filter iff it has that attribute with that value; permission = C03 decision function. Requests the decoder refuses (e.g. Certificate Type under 2.0) are skipped and counted. Name filters use name type Uninterpreted Text String only.'),
 }
 ALL = ['C%02d' % i for i in range(1, 21)]
 
